@@ -17,6 +17,7 @@ bytes / str                                   `List Nat` (byte values / code poi
 `bytes.index`, `in`                           `findIdx`
 `str.split(sep)`                              `pySplit`
 ZeroDivisionError (blocksize 0)               `none`
+`str.encode('utf-8')`                         `utf8`, `encode` (code points → bytes)
 Import-free (linked into the native driver).
 -/
 namespace Dask.TextBlocks
@@ -160,6 +161,38 @@ def fileBlocks (A : FArith) (data d : List Nat) (bs : Option Nat) : Option (List
   | some b => (plan A data.length b).map fun (offs, lens) =>
       (offs.zip lens).map fun (o, l) => readBlockFromFile data d o (some l)
 
+/-! ## `not_zero`, `sample` -/
+
+/-- `off[0] = 1; length[0] -= 1` -/
+def shiftHead (ol : List Nat × List Nat) : List Nat × List Nat :=
+  match ol.1, ol.2 with
+  | _ :: os, l :: ls => (1 :: os, (l - 1) :: ls)
+  | os, ls => (os, ls)
+
+/-- `read_bytes(..., not_zero=True)`: `off[0] = 1; length[0] -= 1` (only in the blocksize branch, non-empty file) -/
+def planNotZero (A : FArith) (size blocksize : Nat) : Option (List Nat × List Nat) :=
+  (plan A size blocksize).map shiftHead
+
+/-- the blocks of `read_bytes(path, delimiter=d, blocksize=b, not_zero=True)` -/
+def fileBlocksNotZero (A : FArith) (data d : List Nat) (b : Nat) : Option (List (List Nat)) :=
+  (planNotZero A data.length b).map fun (offs, lens) =>
+    (offs.zip lens).map fun (o, l) => readBlockFromFile data d o (some l)
+
+/-- the `sample` loop of `read_bytes` (a delimiter is given): read `n` bytes, keep reading `n` at a time until a
+    chunk contains the delimiter, cut after it. `fuel` = number of chunks that can exist. -/
+def sampleLoop (n : Nat) (d data : List Nat) : Nat → Nat → List Nat → List Nat
+  | 0, _, buff => buff
+  | fuel + 1, pos, buff =>
+    let new := (data.drop pos).take n
+    if new.isEmpty then buff
+    else match findIdx d new with
+      | some i => buff ++ new.take i ++ d
+      | none => sampleLoop n d data fuel (pos + n) (buff ++ new)
+
+/-- `sample` returned by `read_bytes(path, delimiter=d, sample=n)` for `n > 0` -/
+def sampleOf (n : Nat) (d data : List Nat) : List Nat :=
+  sampleLoop n d data (data.length + 1) n (data.take n)
+
 /-! ## `str.split`, `decode`, `file_to_blocks` -/
 
 /-- Python `t.split(d)` for a non-empty separator `d`: greedy, left to right. `skip` = bytes of an
@@ -273,5 +306,22 @@ def readTextFilesBlocks (A : FArith) (d : List Nat) (files : List (List Nat)) (b
 /-- does `d` have a border (a proper non-empty prefix that is also a suffix)? -/
 def hasBorder (d : List Nat) : Bool :=
   (List.range d.length).any fun k => 0 < k && d.take k == d.drop (d.length - k)
+
+/-! ## UTF-8 (`str.encode` / `bytes.decode`): `read_text` cuts BYTES, `decode` splits TEXT -/
+
+/-- UTF-8 encoding of one code point (`c < 0x110000`; CPython refuses surrogates, which changes nothing here) -/
+def utf8 (c : Nat) : List Nat :=
+  if c < 0x80 then [c]
+  else if c < 0x800 then [0xC0 + c / 64, 0x80 + c % 64]
+  else if c < 0x10000 then [0xE0 + c / 4096, 0x80 + c / 64 % 64, 0x80 + c % 64]
+  else [0xF0 + c / 262144, 0x80 + c / 4096 % 64, 0x80 + c / 64 % 64, 0x80 + c % 64]
+
+/-- `str.encode("utf-8")` on a list of code points -/
+def encode (t : List Nat) : List Nat := t.flatMap utf8
+
+/-- continuation byte `10xxxxxx` -/
+def isCont (b : Nat) : Bool := 0x80 ≤ b && b < 0xC0
+
+def ValidText (t : List Nat) : Prop := ∀ c ∈ t, c < 0x110000
 
 end Dask.TextBlocks
